@@ -160,6 +160,7 @@ func (fr *FnRun) instr(st *State, in ssa.Instruction, depth int) {
 		// are checked at the statement (what must hold when the goroutine is started)
 		fr.siteArgs = nil
 		fr.checkCallSite(st, x, x.Common())
+		fr.bumpCallCounters(st, x) // calls("f") counts the goroutines started with `go f(...)` as well
 		st.events = append(st.events, "go:"+x.Common().String())
 	case *ssa.MakeMap:
 		mt := under(x.Type()).(*types.Map)
